@@ -37,6 +37,8 @@ THEOREMS = [
     'C06.refines_propGet_all', 'C06.refines_propGet_index', 'C06.refines_propSet', 'C06.propSet_error_unchanged',
     'C06.propSet_then_propGet', 'C06.viewSet_existing_refines', 'C06.assign_spec', 'C06.refines_setItem',
     'C06.viewSet_new_refines', 'C06.viewSet_new_reads', 'C06.system_ops_delegate',
+    # refinement: extend (values of every column of the result)
+    'C06.refines_extend', 'C06.extend_index_sel', 'C06.tailSel_pos', 'C06.extend_self_rows', 'C06.extend_zero_rows',
     # copying operations: results in fresh buffers, operands unchanged
     'C06.frame_fresh_meaning', 'C06.extend_fresh_unchanged', 'C06.extendInt_fresh_unchanged',
     'C06.propGetAtoms_fresh_unchanged', 'C06.new_fresh_unchanged',
@@ -57,15 +59,16 @@ PARTIAL = {
         'writeRows old (positions zip cast broadcast rows), later duplicates win, no other property name and no other '
         'buffer changes), whole-column assignment to an existing key (viewSet_existing_refines) and to a new key '
         '(viewSet_new_refines: exact resulting state).',
-    'values after extend / atoms_extend, prop_atype, scale=True':
-        'for these the invariant (inv_step: rectangular, typed, atype >= 1, padding) and, for the extending operations, '
-        'freshness and operand_unchanged (extend_fresh_unchanged, extendInt_fresh_unchanged, propGetAtoms_fresh_unchanged) '
-        'are proved for the model, but not the closed form of the resulting values (self rows ++ cast donor rows with '
-        'zero fill; the per-type table lookup; the Cartesian image of box-relative values). Their values are covered '
-        'on every run by the correspondence and by the record-per-atom oracle only. extend is __getitem__ with an '
-        'integer list (proved: refines_getItem), new-key assignments of zero columns (proved: viewSet_new_refines) and '
-        'a loop of the primitive `assign` (proved: assign_spec, Wrote.readback; the same loop is composed over the '
-        'property list for __setitem__ in refines_setItem); what is missing is that last composition for extend.',
+    'values after prop_atype, scale=True, and of the composite calls extend(int) / prop(index=) / atoms_extend / atoms_ix[...]':
+        'proved for these: the invariant (inv_step), freshness and operand_unchanged (extendInt_fresh_unchanged, '
+        'propGetAtoms_fresh_unchanged), and the values of their building blocks (refines_getItem, refines_deepcopy, '
+        'refines_extend with the closed forms extend_self_rows / extend_zero_rows: self rows ++ cast donor rows, zero '
+        'fill on either side; constructor on literals: viewSet_new_refines). Not proved: the closed form of the values '
+        'of the per-type table lookup of prop_atype (its literal is shown well-formed: picked_ok), the Cartesian image '
+        'written by scale=True, and the composition of the building blocks for extend(int) = Atoms(natoms=n) then '
+        'extend, prop(index=) = deepcopy(self[index]) and the System wrappers (atoms_extend = symbols, extend, optional '
+        'scaled write, System(...); atoms_ix[...] = getitem, symbols, System(...)). Covered on every run by the '
+        'correspondence and by the record-per-atom oracle.',
     'aliasing of slices':
         'GetItemRes.slice_is_view states that a basic slice of more than one atom holds the views p.arr[sel] of the '
         "operand's arrays (so writes through either are seen by both, refines_propSet's last clause says exactly "
@@ -1775,8 +1778,9 @@ MANIFEST = {
             'pos exist, Systems point at live Atoms; symbols/masses are at least natypes long once read. Refinement to '
             'the record-per-atom view, per operation family: atoms[index] and deepcopy return, for every property, the '
             'operand\'s rows at the SAME positions (row alignment), reads return the selected rows, an indexed write is '
-            'the record update with later duplicates winning and nothing else changing, whole-column assignment '
-            'overwrites in place; copying operations (list/bool index, deepcopy, prop(index), extend, constructor) '
+            'the record update with later duplicates winning and nothing else changing (also atoms[index] = other, '
+            'property by property, overlap-safe), whole-column assignment overwrites in place, extend(other) is self rows '
+            'followed by the cast donor rows with zero fill on either side; copying operations (list/bool index, deepcopy, prop(index), extend, constructor) '
             'return objects in fresh buffers and leave every pre-existing object and buffer literally unchanged; one '
             'lemma per refusal. Tied to the code by a differential run over random operation histories comparing '
             'replies, full state and the complete memory-sharing relation after every operation; the clauses are '
